@@ -1,9 +1,25 @@
 package quic
 
-// [UQUIC] SetConnectionIDLimit was previously used to set a custom active connection ID
-// limit on the connIDManager. In quic-go v0.59.1, the connIDManager no longer stores
-// this limit — it is enforced via protocol.MaxActiveConnectionIDs and the peer's
-// transport parameters. This function is kept as a no-op for API compatibility;
-// the ActiveConnectionIDLimit value in the transport parameters already controls
-// how many connection IDs the server will send us.
-func (h *connIDManager) SetConnectionIDLimit(_ uint64) {}
+import "github.com/refraction-networking/uquic/internal/protocol"
+
+// [UQUIC] SetConnectionIDLimit tells the connIDManager which active_connection_id_limit
+// this endpoint advertised. A spec-driven client puts the spec's value on the wire
+// (Firefox advertises 8), so the peer may keep that many connection IDs active; enforcing
+// the built-in protocol.MaxActiveConnectionIDs instead made the client close conformant
+// connections with CONNECTION_ID_LIMIT_ERROR. Values below 2 are not valid for the
+// transport parameter and are ignored.
+func (h *connIDManager) SetConnectionIDLimit(limit uint64) {
+	if limit < 2 {
+		return
+	}
+	h.maxActiveConnIDs = int(min(limit, 1<<16))
+}
+
+// connectionIDLimit is the number of connection IDs (including the active one) the peer
+// is allowed to have issued and not yet seen retired. [UQUIC]
+func (h *connIDManager) connectionIDLimit() int {
+	if h.maxActiveConnIDs != 0 {
+		return h.maxActiveConnIDs
+	}
+	return protocol.MaxActiveConnectionIDs
+}
